@@ -152,7 +152,12 @@ def job(j):
 
     # odd jobs: small alphabet with two fragments and @skip / @include (literal and variable) on fields, inline fragments and spreads
     simcfg = "MC_exec_simd.cfg" if seed % 2 else "MC_exec_sim3.cfg"
-    res = tlc.run("MC_exec.tla", simcfg, on_line=on_line, workers=1, simulate=j["behaviours"], depth=40, seed=seed, timeout=1500)
+    if j.get("cfg"):
+        # an exhaustively enumerated small configuration: merged sub-selections that differ per runtime type of the list items
+        simcfg = j["cfg"]
+        res = tlc.run("MC_exec.tla", simcfg, on_line=on_line, workers=1, timeout=1500)
+    else:
+        res = tlc.run("MC_exec.tla", simcfg, on_line=on_line, workers=1, simulate=j["behaviours"], depth=40, seed=seed, timeout=1500)
     w = st["world"]
     eng_cfgs = [{"coercer": counting_coercer}, {"coercer": counting_coercer, "list_conc": False, "field_parent_conc": False}]
     records, meta = [], {}
@@ -205,6 +210,7 @@ def main(argv):
     jobs = [{"seed": base_seed * 100 + k + 1, "behaviours": 1500 if thorough else 400, "max_cases": 800 if thorough else 150,
              "per_case": 12 if thorough else 6} for k in range(njobs)]
     jobs.append({"kind": "cells"})
+    jobs.append({"seed": base_seed * 100 + 77, "cfg": "MC_exec_merget.cfg", "behaviours": 0, "max_cases": 6000 if thorough else 2500, "per_case": 6 if thorough else 3})
     results = genrun.run_jobs("checks.c03", "job", jobs)
     bad = genrun.merge(rep, results)
     rep.exhaustive = False
